@@ -2,6 +2,9 @@
  * own neighbourhood").
  *
  * usage: c11_damage --cases <file> [--timeout s] [--noexempt] stream0.ogg stream1.ogg ...
+ *        a stream argument written hr:<path> is decoded (clean reference and every damaged history) in HALF-RATE mode:
+ *        vorbis_synthesis_halfrate(&vi,1) before vorbis_synthesis_init; restart histories may come from a full-rate stream entry
+ *        of the same setup (only its packets are used).
  *        c11_damage --info stream0.ogg ...          (one JSON line per stream, then exit)
  *
  * Every stream is parsed once with libogg (ogg_sync/ogg_stream_packetout: granulepos, packetno and e_o_s
@@ -55,7 +58,7 @@ typedef struct {
   char path[400]; pkt hdr[3]; pkt *p; int n, cap;
   vorbis_info vi; vorbis_comment vc; int ch; long bs0, bs1;
   chunk *clean; float *pcm; long pcm_n; long *bsz; long total;
-  unsigned char *file; long flen;
+  unsigned char *file; long flen; int halfrate;
 } stream;
 typedef struct { const unsigned char *data; long bytes; ogg_int64_t gp, pno; int eos; int tag; int cmp; int restart; int mark; } item;
 typedef struct { char kind[12]; long k, a, b; } opr;
@@ -74,7 +77,9 @@ static void die(const char *m, const char *a){ fprintf(stderr, "c11_damage: %s %
 /* ------------------------------------------------------------------ loading */
 static void load_stream(stream *s, const char *path){
   ogg_sync_state oy; ogg_stream_state os; ogg_page og; ogg_packet op; long len, pos = 0; unsigned char *d; int sinit = 0, nh = 0;
-  memset(s, 0, sizeof(*s)); strncpy(s->path, path, sizeof(s->path) - 1);
+  int hr = !strncmp(path, "hr:", 3);
+  memset(s, 0, sizeof(*s)); strncpy(s->path, path, sizeof(s->path) - 1); s->halfrate = hr;
+  if(hr)path += 3;
   d = load_file(path, &len);
   ogg_sync_init(&oy);
   while(1){
@@ -101,6 +106,8 @@ static void load_stream(stream *s, const char *path){
     if(vorbis_synthesis_headerin(&s->vi, &s->vc, &h) < 0)die("headerin failed", path);
   }
   s->ch = s->vi.channels; s->bs0 = vorbis_info_blocksize(&s->vi, 0); s->bs1 = vorbis_info_blocksize(&s->vi, 1);
+  /* half-rate decoding: set on the vorbis_info before any vorbis_synthesis_init; the clean reference is decoded the same way */
+  if(hr && vorbis_synthesis_halfrate(&s->vi, 1))die("half-rate refused (short block <= 64)", path);
 }
 
 /* ------------------------------------------------------------------ decoding */
@@ -325,6 +332,7 @@ static long vf_readall(stream *s, const unsigned char *data, long len, int seeka
 static void run_page_case(long idx, stream *s, const char *kind, long p, int seekable){
   static pginfo pg[4096]; int np = parse_pages(s, pg, 4096), c, j, holes, err, judged = 1; unsigned char *d; long dl = 0, tot, M = 0, P = 0;
   static float *cb = NULL, *db = NULL; static long ccap = 0, dcap = 0; static stream *cfor = NULL, *bfor = NULL; static long ctot = 0; static int cseek = -1;
+  if(s->halfrate){ printf("%ld SKIP page_cases_not_run_at_half_rate\n", idx); return; }
   if(np < 0){ printf("%ld SKIP unparsable_pages\n", idx); return; }
   if(p < 2 || p >= np || pg[p].a < 0){ printf("%ld SKIP not_an_audio_page\n", idx); return; }
   for(j = 0; j < np; j++)if(pg[j].cont || pg[j].spans){ printf("%ld SKIP packet_spans_pages\n", idx); return; }
@@ -450,8 +458,8 @@ static void info(stream *s, int si){
   for(j = 0; j < s->n; j++)h_i64(&ho, s->clean[j].cnt);
   h_bytes(&ho, s->pcm, sizeof(float) * s->pcm_n * s->ch);
   h_hex(&hp, a); h_hex(&hs, b); h_hex(&ho, c);
-  printf("{\"stream\":%d,\"path\":\"%s\",\"packets\":%d,\"bytes\":%ld,\"ch\":%d,\"bs0\":%ld,\"bs1\":%ld,\"granule_packets\":%d,\"transitions\":%d,\"samples\":%ld,\"last_eos\":%d,\"packets_hash\":\"%s\",\"setup_hash\":\"%s\",\"pcm_hash\":\"%s\",\"blocks\":\"",
-         si, s->path, s->n, total, s->ch, s->bs0, s->bs1, ngp, trans, s->total, (s->n && s->p[s->n - 1].eos) ? 1 : 0, a, b, c);
+  printf("{\"stream\":%d,\"halfrate\":%d,\"path\":\"%s\",\"packets\":%d,\"bytes\":%ld,\"ch\":%d,\"bs0\":%ld,\"bs1\":%ld,\"granule_packets\":%d,\"transitions\":%d,\"samples\":%ld,\"last_eos\":%d,\"packets_hash\":\"%s\",\"setup_hash\":\"%s\",\"pcm_hash\":\"%s\",\"blocks\":\"",
+         si, s->halfrate, s->path, s->n, total, s->ch, s->bs0, s->bs1, ngp, trans, s->total, (s->n && s->p[s->n - 1].eos) ? 1 : 0, a, b, c);
   for(j = 0; j < s->n; j++)putchar(s->bsz[j] == s->bs1 && s->bs1 != s->bs0 ? 'L' : 'S');
   /* per packet: bitmask of channels whose spectrum decoded to exact silence (unused floor) */
   printf("\",\"zeroch\":\"");
